@@ -19,7 +19,8 @@ REQUIRED = [
     "register_accepts_iff", "register_never_panics", "poll_never_fails",
     "fact_get_reads_timestamp_first", "fact_check_order", "fact_add_deletes_previous", "fact_expiry_comparisons",
     "fact_update_service_shape", "fact_restart_after_wipe", "fact_service_writers_locked", "fact_loops_visit_everything",
-    "fact_comparisons_exact", "fact_exists_key", "fact_background_jobs", "fact_wiring",
+    "fact_comparisons_exact", "fact_exists_key", "fact_background_jobs", "fact_wiring", "fact_store_guards_credential_id",
+    "credential_without_id_refused",
 ]
 
 
@@ -83,6 +84,8 @@ def acceptable(vp, d, now, prev_rows):
     else:
         if exp is not None and any(c is not None and c < exp for c in vp.get("creds", [])):
             why.append("outlives a credential")
+        if not all(vp.get("credIds", [])):
+            why.append("holds a credential without id")
         if vp.get("pex", -1) != len(vp.get("creds", [])):
             why.append("credentials do not all-and-only fulfil the definition")
     return why
